@@ -13,9 +13,8 @@
 (* with artefacts dumped from the real crate.  MC_Regex checks that the    *)
 (* residual automaton agrees with Matches on every small term and word.    *)
 (***************************************************************************)
-EXTENDS Integers, Sequences, FiniteSets
+EXTENDS Alphabet, Integers, Sequences, FiniteSets
 
-CONSTANT MaxChar
 
 -----------------------------------------------------------------------------
 (* Kernel constructors *)
